@@ -1,43 +1,61 @@
 ---------------------------------------- MODULE MC_ManyLints ----------------------------------------
-(* C13 on a program with many lints: seven lint sites of three kinds on four elements (two lints of    *)
-(* different kinds share an element - and hence the scope the lint records - three times) and up to    *)
-(* two suppressions at any of nine places.  Every lint is silenced exactly when the statement says so  *)
-(* - named (or All) on the command line, on the file, on its element or on a definition enclosing it - *)
-(* independently of every other lint and suppression.                                                  *)
-(* harness/src/fam_lints.rs MANY_TEMPLATE:                                                             *)
-(*   struct S (BrokenDocLink L1, IncorrectDocComment L2) { x (BrokenDocLink L3, Deprecated L4), y }     *)
-(*   interface I { op (IncorrectDocComment L5, BrokenDocLink L6) ( p (Deprecated L7) ) }               *)
+(* C13 on a program with many lints.  Two files with the same text and layout (module M / module N):  *)
+(* each has ten lint sites of three kinds on six elements - a struct, two of its fields, an operation,  *)
+(* its parameter, an enumerator and its field; several lints share an element (and hence the scope the *)
+(* lint records), and every site of one file has a twin at the same row and column of the other file.  *)
+(* Up to MaxSupp suppressions stand at any of the places: command line, file attribute of either file, *)
+(* the elements of the first file, some elements of the twin file.  Every lint is silenced exactly     *)
+(* when the statement says so - named (or All) on the command line, on ITS file, on its element or on  *)
+(* a definition enclosing it - independently of every other lint and suppression.                      *)
+(* harness/src/fam_lints.rs many_template (rows in brackets):                                          *)
+(*   struct S (BrokenDocLink [3], IncorrectDocComment [4]) {                                           *)
+(*     x (BrokenDocLink [6], Deprecated [7]),  y (IncorrectDocComment [8]) }                            *)
+(*   interface I { op (IncorrectDocComment [12], BrokenDocLink [13]) ( p (Deprecated [14]) ) }         *)
+(*   enum E { A (IncorrectDocComment [17]) ( f (Deprecated [18]) ), B }                                 *)
 EXTENDS Naturals, Sequences, FiniteSets, TLC, Json
 CONSTANTS MaxSupp
 Kinds == {"Deprecated", "BrokenDocLink", "IncorrectDocComment"}
 \* chain: the element the lint concerns and the definitions enclosing it
-Sites == << [k |-> "BrokenDocLink", chain |-> {"S"}], [k |-> "IncorrectDocComment", chain |-> {"S"}],
-            [k |-> "BrokenDocLink", chain |-> {"X", "S"}], [k |-> "Deprecated", chain |-> {"X", "S"}],
-            [k |-> "IncorrectDocComment", chain |-> {"OP", "I"}], [k |-> "BrokenDocLink", chain |-> {"OP", "I"}],
-            [k |-> "Deprecated", chain |-> {"P", "OP", "I"}] >>
-\* where a suppression can stand: command line, file attribute, the elements, a sibling (Y), another file
-Slots == {"cli", "file", "S", "X", "Y", "I", "OP", "P", "otherfile"}
-ArgChoices == {{"Deprecated"}, {"BrokenDocLink"}, {"IncorrectDocComment"}, {"All"}, {"BrokenDocLink", "IncorrectDocComment"}, {"Deprecated", "BrokenDocLink"}}
-\* which lint sites the program contains: all of them, or only the two lints of one element (then their diagnostics are
-\* neighbours in the recorded list), or one lint each of two elements
-Presents == {1..7, {1, 2}, {3, 4}, {5, 6}, {2, 5}, {4, 7}, {6}}
+Sites1 == << [k |-> "BrokenDocLink", chain |-> <<"S">>], [k |-> "IncorrectDocComment", chain |-> <<"S">>],
+             [k |-> "BrokenDocLink", chain |-> <<"X", "S">>], [k |-> "Deprecated", chain |-> <<"X", "S">>],
+             [k |-> "IncorrectDocComment", chain |-> <<"OP", "I">>], [k |-> "BrokenDocLink", chain |-> <<"OP", "I">>],
+             [k |-> "Deprecated", chain |-> <<"P", "OP", "I">>], [k |-> "IncorrectDocComment", chain |-> <<"Y", "S">>],
+             [k |-> "IncorrectDocComment", chain |-> <<"EA", "E">>], [k |-> "Deprecated", chain |-> <<"EF", "EA", "E">>] >>
+NSites == Len(Sites1)
+ToSet(s) == {s[i] : i \in 1..Len(s)}
+\* site i of file f (1: a.slice, 2: twin.slice); the twin's elements are written t<name>
+T(name) == "t" \o name
+Site(f, i) == [k |-> Sites1[i].k, f |-> f,
+               chain |-> IF f = 1 THEN ToSet(Sites1[i].chain) ELSE {T(Sites1[i].chain[j]) : j \in 1..Len(Sites1[i].chain)}]
+AllSites == {<<f, i>> : f \in 1..2, i \in 1..NSites}
+\* where a suppression can stand
+Slots == {"cli", "file", "tfile", "S", "X", "Y", "I", "OP", "P", "E", "EA", "EF", "tS", "tX", "tP", "tEA", "tE"}
+ArgChoices == {{"Deprecated"}, {"BrokenDocLink"}, {"IncorrectDocComment"}, {"All"}}
+\* which lint sites the files contain: all of them, or only the lints of one element (then their diagnostics are
+\* neighbours in the recorded list)
+Presents == {1..NSites, {1, 2}, {3, 4}, {5, 6}, {9, 10}}
 VARIABLES supp, present
 AC == ArgChoices \cup {{}}
 Put(a, x, b, y, c, z) == [s \in Slots |-> IF s = a THEN x ELSE IF s = b THEN y ELSE IF s = c THEN z ELSE {}]
-Init == supp \in {Put(a, x, b, y, c, z) : a \in Slots, b \in Slots, c \in (IF MaxSupp >= 3 THEN Slots ELSE {"cli"}),
-                                           x \in AC, y \in (IF MaxSupp >= 2 THEN AC ELSE {{}}), z \in (IF MaxSupp >= 3 THEN AC ELSE {{}})}
+Init == /\ supp \in {Put(a, x, b, y, c, z) : a \in Slots, b \in (IF MaxSupp >= 2 THEN Slots ELSE {"cli"}), c \in (IF MaxSupp >= 3 THEN Slots ELSE {"cli"}),
+                                              x \in AC, y \in (IF MaxSupp >= 2 THEN AC ELSE {{}}), z \in (IF MaxSupp >= 3 THEN AC ELSE {{}})}
         /\ present \in Presents
 Next == UNCHANGED <<supp, present>>
 Names(args, k) == "All" \in args \/ k \in args
+At(s) == IF s \in Slots THEN supp[s] ELSE {}                      \* elements of the twin that carry no slot
 \* ---- reference: the statement
-Silenced(l) == \E s \in {"cli", "file"} \cup l.chain : Names(supp[s], l.k)
+Silenced(l) == \E s \in {"cli", IF l.f = 1 THEN "file" ELSE "tfile"} \cup l.chain : Names(At(s), l.k)
 \* ---- operational: into_updated - stage 1 command line, stage 2 the file of the lint's span, stage 3 the entity found by
 \* the scope the lint recorded and its parents (all_attributes); the scope of each site names the innermost element of its chain
-OpSilenced(l) == Names(supp["cli"], l.k) \/ Names(supp["file"], l.k) \/ \E e \in l.chain : Names(supp[e], l.k)
-RefEqOp == \A i \in 1..Len(Sites) : Silenced(Sites[i]) = OpSilenced(Sites[i])
-\* one lint's fate never depends on another lint: it is a function of its own kind, its own chain and the suppressions
-NonInterference == \A i, j \in 1..Len(Sites) : (Sites[i].k = Sites[j].k /\ Sites[i].chain = Sites[j].chain) => Silenced(Sites[i]) = Silenced(Sites[j])
+OpSilenced(l) == Names(supp["cli"], l.k) \/ Names(supp[IF l.f = 1 THEN "file" ELSE "tfile"], l.k) \/ \E e \in l.chain : Names(At(e), l.k)
+RefEqOp == \A p \in AllSites : Silenced(Site(p[1], p[2])) = OpSilenced(Site(p[1], p[2]))
+\* one lint's fate never depends on another lint: it is a function of its own kind, file and chain and of the suppressions
+NonInterference == \A p, q \in AllSites : LET a == Site(p[1], p[2])  b == Site(q[1], q[2]) IN
+                      (a.k = b.k /\ a.chain = b.chain /\ a.f = b.f) => Silenced(a) = Silenced(b)
+\* a suppression written in one file never reaches the other file
+NoLeak == \A i \in 1..NSites : (\A s \in Slots \ {"cli", "file", "S", "X", "Y", "I", "OP", "P", "E", "EA", "EF"} : supp[s] = {})
+                                  => (Silenced(Site(2, i)) <=> Names(supp["cli"], Sites1[i].k))
 SetToSeq(S) == CHOOSE q \in [1..Cardinality(S) -> S] : \A i, j \in 1..Cardinality(S) : i < j => q[i] # q[j]
-Emit == PrintT(<<"CASE", ToJson([many |-> TRUE, present |-> SetToSeq(present), supp |-> [s \in {x \in Slots : supp[x] # {}} |-> SetToSeq(supp[s])],
-                                 silenced |-> [i \in 1..Len(Sites) |-> Silenced(Sites[i])]])>>)
+Emit == PrintT(<<"CASE", ToJson([many |-> TRUE, present |-> [i \in 1..NSites |-> i \in present], supp |-> [s \in {x \in Slots : supp[x] # {}} |-> SetToSeq(supp[s])],
+                                 silenced |-> [f \in 1..2 |-> [i \in 1..NSites |-> Silenced(Site(f, i))]]])>>)
 ====================================================================================================
